@@ -97,18 +97,20 @@ Fixpoint has_sub (p t : text) : bool :=
   | _ :: r => match starts p t with Some _ => true | None => has_sub p r end
   end.
 
-Definition wellformed (c : case) : bool :=
+Definition wellformed_as (v : val) (c : case) : bool :=
   match utf8_decode (S (length (c_bytes c))) (c_bytes c) [] with
   | Ok doc =>
     (* tabs and line feeds must be written literally, not as numeric entities *)
     if has_sub (ent "&#x9;") doc || has_sub (ent "&#xA;") doc || has_sub (ent "&#9;") doc || has_sub (ent "&#10;") doc then false else
     match lex doc with
-              | Ok t => zeq (tok_tree t) (tok_tree (tidy (clean_tree (drop_empty (root_tree (c_val c))))))
+              | Ok t => zeq (tok_tree t) (tok_tree (tidy (clean_tree (drop_empty (root_tree v)))))
               | _ => false
               end
   | _ => false
   end.
 
+
+Definition wellformed (c : case) : bool := wellformed_as (c_val c) c.
 
 (* ---- the property's own relation: decode (encode v) is v up to the format's stated precision
    (less than one unit of the last printed digit: 10 ms, 1 s for lap dates, 10^-dp for floats) ---- *)
@@ -132,6 +134,7 @@ Definition close_leaf (l l' : leaf) : bool :=
       Nat.eqb (length l1) (length l2) &&
       forallb (fun '((d, x), (d', x')) => close_z 10000000 d d' && close_f 1 x x') (combine l1 l2)
   | LvGear n r, LvGear n' r' => (n =? n') && close_f 6 r r'
+  | LvTyre w p sr sz, LvTyre w' p' sr' sz' => (w =? w') && (p =? p') && (sz =? sz') && zeq (clean_text sr) sr'
   | _, _ => exact_leaf l l'
   end.
 Fixpoint close_val (v v' : val) : bool :=
@@ -189,7 +192,12 @@ Definition check_c13 (c : case) : verdict :=
     (* the hypothesis of C13_every_value_parses must hold of what the code is asked to write *)
     if negb (wf_val_b (c_val c)) then VV else
     let same := neq (enc (c_val c)) (c_bytes c) in
-    if wellformed c && c_gz_ok c && schema_ok c then (if same then VA else VS) else VV
+    if wellformed c && c_gz_ok c && schema_ok c then (if same then VA else VS)
+    (* not the model's digits, but still a document in LapTimer's syntax: it is exactly the printed
+       form of the value the decoder reads back, and that value is the original up to the format's
+       precision (a different rounding of a leaf is C01's business, not C13's) *)
+    else if c_dec_ok c && close_val (c_val c) (c_decoded c) && wellformed_as (c_decoded c) c && c_gz_ok c && schema_ok c then VS
+    else VV
   end.
 
 (* is the database inside the domain of C01_reencode_identical? *)
